@@ -120,7 +120,7 @@ impl<SystemType : System> SysCache<SystemType> {
             inv_cache(*final(w)),                                   //# O-D-restore-inv [C07]
             mt(*old(w)) ==> mt(*final(w)),
             kept(*old(w), *final(w)),                               //# O-D-restore-kept [C08]
-            frame_except(*old(w), *final(w), set![target_path@]),   //# O-D-restore-frame [C09]
+            frame_except1(*old(w), *final(w), target_path@),   //# O-D-restore-frame [C09]
             final(w).execs == old(w).execs,                         //# O-D-restore-noexec [C02,C20]
             res is Done ==> old(w).files.contains_key(cpath(old(w).cache_dir, ticket.bytes()))        //# O-D-restore-done [C02,C07,C10,C20]
                 && final(w).files == old(w).files.remove(cpath(old(w).cache_dir, ticket.bytes())).insert(target_path@, old(w).files[cpath(old(w).cache_dir, ticket.bytes())])
@@ -147,7 +147,7 @@ impl<SystemType : System> SysCache<SystemType> {
             inv_cache(*final(w)),                                   //# O-D-backup-inv [C07]
             mt(*old(w)) ==> mt(*final(w)),
             kept(*old(w), *final(w)),                               //# O-D-backup-kept [C08]
-            frame_except(*old(w), *final(w), set![target_path@]),   //# O-D-backup-frame [C09]
+            frame_except1(*old(w), *final(w), target_path@),   //# O-D-backup-frame [C09]
             final(w).execs == old(w).execs,
             res is Ok ==> old(w).files.contains_key(target_path@)   //# O-D-backup-done [C08,C10]
                 && final(w).files == old(w).files.remove(target_path@).insert(cpath(old(w).cache_dir, ticket.bytes()), old(w).files[target_path@]),
@@ -158,5 +158,359 @@ impl<SystemType : System> SysCache<SystemType> {
 //@ end
 }
 
+
+// ---------- R7: derived Clone of FileState / FileInfo are structural ----------
+impl Clone for FileState { #[verifier::external_body] fn clone(&self) -> (r: FileState) ensures r == *self { unimplemented!() } }
+impl Clone for FileInfo { #[verifier::external_body] fn clone(&self) -> (r: FileInfo) ensures r == *self { unimplemented!() } }
+
+// ---------- R4: iterator-adapter expressions replaced by named helpers (ASSUMED: element-wise, order preserving) ----------
+#[verifier::external_body]
+fn clone_ticket_vec(tickets: &Vec<Ticket>) -> (r: Vec<Ticket>) ensures r@ == tickets@
+{ tickets.iter().map(|ticket| ticket.clone()).collect() }
+#[verifier::external_body]
+fn tickets_of_infos(infos: &Vec<FileState>) -> (r: Vec<Ticket>)
+    ensures r@.len() == infos@.len(), forall|i: int| 0 <= i < infos@.len() ==> r@[i] == infos@[i].ticket
+{ infos.iter().map(|info| info.ticket.clone()).collect() }
+
+// every cache entry other than `gone` persists; unchanged as a whole entry if nothing had to be backed up from t
+spec fn cache_keeps_except(a: World, b: World, gone: Seq<char>, t: Seq<char>) -> bool {
+    forall|p: Seq<char>| #![trigger b.files[p]] #![trigger b.files.contains_key(p)] under(a.cache_dir, p) && p != gone && a.files.contains_key(p)
+        ==> b.files.contains_key(p) && (!a.files.contains_key(t) ==> b.files[p] == a.files[p])
+}
+// what a resolution value claims about target p whose remembered hash is r, between worlds a (before) and b (after)
+spec fn res_ok(a: World, b: World, p: Seq<char>, r: Seq<u8>, res: FileResolution) -> bool {
+    match res {
+        FileResolution::AlreadyCorrect => a.files.contains_key(p) && b.files.contains_key(p) && b.files[p] == a.files[p] && sha256(b.files[p].content) == r,
+        FileResolution::Recovered => b.files.contains_key(p) && sha256(b.files[p].content) == r && !(a.files.contains_key(p) && sha256(a.files[p].content) == r),
+        FileResolution::Downloaded => false,
+        FileResolution::NeedsRebuild => !b.files.contains_key(p) && !(a.files.contains_key(p) && sha256(a.files[p].content) == r),
+    }
+}
+// the stronger claims that hold when no other target of the rule remembers the same hash
+// (one cache file cannot serve two restores)
+spec fn res_unique(a: World, b: World, p: Seq<char>, r: Seq<u8>, res: FileResolution, all_absent: bool) -> bool {
+    &&& (res is NeedsRebuild ==> !a.files.contains_key(cpath(a.cache_dir, r)))
+    &&& ((res is Recovered && all_absent && a.files.contains_key(cpath(a.cache_dir, r))) ==> b.files[p] == a.files[cpath(a.cache_dir, r)])
+}
+spec fn file_tk(w: World, p: Seq<char>, t: Ticket) -> bool { w.files.contains_key(p) && t.bytes() == sha256(w.files[p].content) }
+// the FileState describes the file at p exactly
+spec fn state_of(w: World, p: Seq<char>, st: FileState) -> bool {
+    w.files.contains_key(p) && st.ticket.bytes() == sha256(w.files[p].content) && st.timestamp == w.files[p].mtime && st.executable == w.files[p].executable
+}
+
+// ---------- blob.rs ----------
+impl FileState {
+//@ extract blob.rs impl /^FileState$/ fn empty
+//@ props C18 C05
+//@ ret res
+//@ spec
+        ensures rem_ok(res), res.timestamp == 0,      //# O-D-empty-state-valid [C18,C07]
+//@ hint start
+        proof { wc_zero(); }
+//@ end
+}
+
+impl FileStateVec {
+    spec fn tickets(&self) -> Seq<Seq<u8>> { self.infos@.map_values(|st: FileState| st.ticket.bytes()) }
+
+//@ extract blob.rs impl /^FileStateVec$/ fn from_ticket_vec
+//@ props C01 C05 C17
+//@ ret res
+//@ retype 1 /let mut infos = vec!\[\];/ => let mut infos : Vec<FileState> = Vec::new();
+//@ spec
+        ensures res.infos@.len() == tickets@.len(),
+            forall|i: int| 0 <= i < tickets@.len() ==> (#[trigger] res.infos@[i]).ticket == tickets@[i] && res.infos@[i].timestamp == 0 && !res.infos@[i].executable,   //# O-D-from-ticket-vec [C01,C17]
+//@ loop 1 binder it
+//@ loop 1 invariant
+            invariant infos@.len() == it.index@,
+                forall|i: int| 0 <= i < it.index@ ==> (#[trigger] infos@[i]).ticket == tickets@[i] && infos@[i].timestamp == 0 && !infos@[i].executable,
+//@ end
+
+//@ extract blob.rs impl /^FileStateVec$/ fn compare
+//@ props C17 C05
+//@ ret res
+//@ retype 1 /let mut contradicting_indices = Vec::new\(\);/ => let mut contradicting_indices : Vec<usize> = Vec::new();
+//@ spec
+        ensures
+            res is Ok <==> self.tickets() =~= other.tickets(),                                               //# O-D-compare-ok [C17]
+            (res matches Err(BlobError::TargetSizesDifferWeird)) <==> self.infos@.len() != other.infos@.len(),   //# O-D-compare-sizes [C17]
+            res matches Err(BlobError::Contradiction(v)) ==> v@ =~= diff_indices(self.tickets(), other.tickets(), self.infos@.len() as int),   //# O-D-compare-contradiction [C17]
+//@ loop 1 invariant
+                invariant elen == self.infos@.len(), elen == other.infos@.len(),
+                    contradicting_indices@ =~= diff_indices(self.tickets(), other.tickets(), i as int),
+//@ hint before 1/1 /if contradicting_indices\.len\(\) == 0/
+            proof { diff_indices_props(self.tickets(), other.tickets(), elen as int); }
+//@ end
+
+//@ extract blob.rs impl /^FileStateVec$/ fn get_info
+//@ props C05
+//@ ret res
+//@ spec
+        requires i < self.infos@.len(),     //# O-D-get-info-bounds [C05]
+        ensures res == self.infos@[i as int],
+//@ end
+
+//@ extract blob.rs impl /^FileStateVec$/ fn get_ticket
+//@ props C01 C03 C05
+//@ ret res
+//@ spec
+        requires sub_index < self.infos@.len(),     //# O-D-get-ticket-bounds [C05]
+        ensures res == self.infos@[sub_index as int].ticket,     //# O-D-get-ticket [C01,C03]
+//@ end
+}
+
+// indices below n at which two ticket lists differ, in increasing order (mirrors the natural fold of `compare`)
+spec fn diff_indices(a: Seq<Seq<u8>>, b: Seq<Seq<u8>>, n: int) -> Seq<usize>
+    decreases n
+{
+    if n <= 0 { Seq::empty() }
+    else if a[n - 1] != b[n - 1] { diff_indices(a, b, n - 1).push((n - 1) as usize) }
+    else { diff_indices(a, b, n - 1) }
+}
+// property-facing lemma (code-shape independent): diff_indices lists exactly the differing positions, strictly increasing
+proof fn diff_indices_props(a: Seq<Seq<u8>>, b: Seq<Seq<u8>>, n: int)
+    requires 0 <= n <= a.len(), n <= b.len(), n <= usize::MAX
+    ensures
+        forall|k: int| 0 <= k < diff_indices(a, b, n).len() ==> 0 <= (#[trigger] diff_indices(a, b, n)[k]) < n && a[diff_indices(a, b, n)[k] as int] != b[diff_indices(a, b, n)[k] as int],
+        forall|j: int| 0 <= j < n && a[j] != b[j] ==> diff_indices(a, b, n).contains(j as usize),
+        forall|k: int, l: int| 0 <= k < l < diff_indices(a, b, n).len() ==> diff_indices(a, b, n)[k] < diff_indices(a, b, n)[l],
+        diff_indices(a, b, n).len() == 0 <==> (forall|j: int| 0 <= j < n ==> a[j] == b[j]),
+    decreases n
+{
+    if n > 0 {
+        diff_indices_props(a, b, n - 1);
+        let d0 = diff_indices(a, b, n - 1);
+        let d = diff_indices(a, b, n);
+        if a[n - 1] != b[n - 1] {
+            assert(d[d.len() - 1] == (n - 1) as usize);
+            assert forall|j: int| 0 <= j < n && a[j] != b[j] implies d.contains(j as usize) by {
+                if j < n - 1 { let k = choose|k: int| 0 <= k < d0.len() && d0[k] == j as usize; assert(d[k] == j as usize); }
+                else { assert(d[d.len() - 1] == j as usize); }
+            }
+        }
+    }
+}
+
+//@ extract blob.rs fn get_file_ticket_from_path
+//@ props C15 C18 C05
+//@ ret res
+//@ param Tracked(w): Tracked<&mut World>
+//@ addarg 4 /system\.(is_dir|is_file)|TicketFactory::from_(file|directory)/ Tracked(w)
+//@ spec
+    ensures *final(w) == *old(w),
+        res matches Ok(Some(t)) ==> (!old(w).dirs.contains(path@) ==> file_tk(*old(w), path@, t)),    //# O-D-ticket-from-path [C07,C18]
+        res matches Ok(None) ==> !old(w).files.contains_key(path@) && !old(w).dirs.contains(path@),
+//@ end
+
+//@ extract blob.rs fn get_file_ticket
+//@ props C18 C07 C05
+//@ ret res
+//@ param Tracked(w): Tracked<&mut World>
+//@ addarg 2 /system\.get_modified|get_file_ticket_from_path/ Tracked(w)
+//@ spec
+    requires rem_ok(*assumed_file_state), mt(*old(w)),     //# O-D-shortcut-pre [C18]
+    ensures *final(w) == *old(w),
+        // the mtime shortcut returns exactly what hashing the file returns (C18), and that is the true hash (C07)
+        res matches Ok(Some(t)) ==> (!old(w).dirs.contains(path@) ==> file_tk(*old(w), path@, t)),    //# O-D-shortcut-ticket [C18,C07,C01]
+        res matches Ok(None) ==> !old(w).files.contains_key(path@) && !old(w).dirs.contains(path@),  //# O-D-shortcut-none [C18]
+//@ end
+
+//@ extract blob.rs fn get_actual_file_state
+//@ props C18 C04 C05
+//@ ret res
+//@ param Tracked(w): Tracked<&mut World>
+//@ addarg 3 /system\.(get_modified|is_executable)|TicketFactory::from_file/ Tracked(w)
+//@ spec
+    requires rem_ok(*assumed_file_state), mt(*old(w)), !old(w).dirs.contains(path@),     //# O-D-shortcut-state-pre [C18]
+    ensures *final(w) == *old(w),
+        res matches Ok(st) ==> state_of(*old(w), path@, st),         //# O-D-shortcut-state [C18,C07,C01]
+        res matches Err(GetCurrentFileInfoError::TargetFileNotFound(p, _)) ==> p@ == path@,   //# O-D-missing-names [C04]
+        !old(w).files.contains_key(path@) ==> res matches Err(GetCurrentFileInfoError::TargetFileNotFound(_, _)),                 //# O-D-missing-detected [C04]
+//@ end
+
+impl Blob {
+//@ extract blob.rs impl /^Blob$/ fn get_current_file_state_vec
+//@ props C01 C04 C18 C05
+//@ ret res
+//@ param Tracked(w): Tracked<&mut World>
+//@ addarg 1 /get_file_ticket/ Tracked(w)
+//@ retype 1 /let mut tickets = vec!\[\];/ => let mut tickets : Vec<Ticket> = Vec::new();
+//@ rewrite 1 /tickets\.iter\(\)\.map\(\|ticket\| ticket\.clone\(\)\)\.collect\(\)/ => clone_ticket_vec(&tickets)
+//@ spec
+        requires self.all_rem_ok(), mt(*old(w)), self.wf(*old(w)),
+        ensures *final(w) == *old(w),
+            res matches Ok(v) ==> v.infos@.len() == self.file_infos@.len()        //# O-D-true-hash-vec [C01,C03,C18]
+                && forall|i: int| 0 <= i < self.file_infos@.len() ==> file_tk(*old(w), self.file_infos@[i].path@, (#[trigger] v.infos@[i]).ticket),
+            res matches Err(GetFileStateError::FileNotFound(p)) ==>                //# O-D-missing-names-vec [C04]
+                exists|i: int| 0 <= i < self.file_infos@.len() && #[trigger] self.file_infos@[i].path@ == p@ && !old(w).files.contains_key(p@),
+//@ loop 1 binder it
+//@ loop 1 invariant
+            invariant *w == *old(w), self.all_rem_ok(), mt(*w), self.wf(*w),
+                tickets@.len() == it.index@,
+                forall|i: int| 0 <= i < it.index@ ==> file_tk(*w, self.file_infos@[i].path@, #[trigger] tickets@[i]),
+//@ end
+
+//@ extract blob.rs impl /^Blob$/ fn update_to_match_system_file_state
+//@ props C01 C04 C07 C18 C05
+//@ ret res
+//@ param Tracked(w): Tracked<&mut World>
+//@ addarg 1 /get_actual_file_state/ Tracked(w)
+//@ retype 1 /let mut infos = vec!\[\];/ => let mut infos : Vec<FileState> = Vec::new();
+//@ rewrite 1 /for target_info in self\.file_infos\.iter_mut\(\)/ => for idx in 0..self.file_infos.len()
+//@ insert after 1/1 /for target_info in self\.file_infos\.iter_mut\(\)\s*\{/ => let target_info = &mut self.file_infos[idx];
+//@ rewrite 1 /infos\.iter\(\)\.map\(\|info\| info\.ticket\.clone\(\)\)\.collect\(\)/ => tickets_of_infos(&infos)
+//@ spec
+        requires old(self).all_rem_ok(), mt(*old(w)), old(self).wf(*old(w)),
+        ensures *final(w) == *old(w),
+            final(self).paths() =~= old(self).paths(),
+            final(self).all_rem_ok(),                                                 //# O-D-refresh-valid [C07,C18]
+            res matches Ok(v) ==> v.infos@.len() == final(self).file_infos@.len()           //# O-D-refresh [C01,C07,C18]
+                && (forall|i: int| 0 <= i < final(self).file_infos@.len() ==>
+                        state_of(*old(w), final(self).file_infos@[i].path@, #[trigger] final(self).file_infos@[i].file_state))
+                && (forall|i: int| 0 <= i < final(self).file_infos@.len() ==>
+                        file_tk(*old(w), final(self).file_infos@[i].path@, (#[trigger] v.infos@[i]).ticket)),
+            res matches Err(GetCurrentFileInfoError::TargetFileNotFound(p, _)) ==>       //# O-D-not-generated-names [C04]
+                exists|i: int| 0 <= i < old(self).file_infos@.len() && #[trigger] old(self).file_infos@[i].path@ == p@,
+//@ loop 1 invariant
+            invariant *w == *old(w), mt(*w), self.all_rem_ok(), self.wf(*w),
+                self.file_infos@.len() == old(self).file_infos@.len(),
+                forall|i: int| 0 <= i < self.file_infos@.len() ==> (#[trigger] self.file_infos@[i]).path@ == old(self).file_infos@[i].path@,
+                infos@.len() == idx,
+                forall|i: int| 0 <= i < idx ==> state_of(*w, self.file_infos@[i].path@, #[trigger] self.file_infos@[i].file_state),
+                forall|i: int| 0 <= i < idx ==> file_tk(*w, self.file_infos@[i].path@, (#[trigger] infos@[i]).ticket),
+//@ end
+}
+
+
+//@ extract blob.rs fn restore_or_download
+//@ props C02 C05 C07 C08 C09 C10 C20
+//@ ret res
+//@ param Tracked(w): Tracked<&mut World>
+//@ addarg 3 /cache\.restore_file|downloader_cache\.restore_file|system\.set_is_executable/ Tracked(w)
+//@ rewrite 1 /println!\("Warning: failed to set executable"\);/ => <empty>
+//@ spec
+    requires old(cache).wf(*old(w)), inv(*old(w)), no_urls(*downloader_cache_opt),
+        old(w).targets.contains(target_info.path@) && !under(old(w).cache_dir, target_info.path@),
+        !old(w).files.contains_key(target_info.path@),                                               //# O-D-rename-out [C08]
+    ensures final(cache).wf(*final(w)), final(cache).path@ == old(cache).path@,
+        inv(*final(w)),                                                                              //# O-D-rod-inv [C07]
+        kept(*old(w), *final(w)),                                                                    //# O-D-rod-kept [C08]
+        frame_except1(*old(w), *final(w), target_info.path@),                                   //# O-D-rod-frame [C09]
+        final(w).execs == old(w).execs,                                                              //# O-D-rod-noexec [C02,C20]
+        res matches Ok(r) ==> r is Recovered || r is NeedsRebuild,
+        res matches Ok(FileResolution::Recovered) ==>                                                //# O-D-rod-recovered [C02,C07,C10,C20]
+            old(w).files.contains_key(cpath(old(w).cache_dir, remembered_target_content_info.ticket.bytes()))
+            && final(w).files == old(w).files.remove(cpath(old(w).cache_dir, remembered_target_content_info.ticket.bytes()))
+                    .insert(target_info.path@, old(w).files[cpath(old(w).cache_dir, remembered_target_content_info.ticket.bytes())])
+            && file_tk(*final(w), target_info.path@, remembered_target_content_info.ticket),
+        cache_keeps_except(*old(w), *final(w), cpath(old(w).cache_dir, remembered_target_content_info.ticket.bytes()), target_info.path@),   //# O-D-rod-cache-keeps [C02,C10]
+        res matches Ok(FileResolution::NeedsRebuild) ==> *final(w) == *old(w)                        //# O-D-rod-needs-rebuild [C02,C20]
+            && !old(w).files.contains_key(cpath(old(w).cache_dir, remembered_target_content_info.ticket.bytes())),
+        res is Err ==> *final(w) == *old(w),
+//@ end
+
+//@ extract blob.rs fn resolve_single_target
+//@ props C02 C05 C07 C08 C09 C10 C18 C20
+//@ ret res
+//@ param Tracked(w): Tracked<&mut World>
+//@ addarg 4 /get_file_ticket|cache\.back_up_file_with_ticket|restore_or_download/ Tracked(w)
+//@ spec
+    requires old(cache).wf(*old(w)), inv(*old(w)), no_urls(*downloader_cache_opt),
+        old(w).targets.contains(target_info.path@) && !under(old(w).cache_dir, target_info.path@) && !old(w).dirs.contains(target_info.path@),
+        rem_ok(target_info.file_state),
+    ensures final(cache).wf(*final(w)), final(cache).path@ == old(cache).path@,
+        inv(*final(w)),                                                                              //# O-D-rst-inv [C07]
+        kept(*old(w), *final(w)),                                                                    //# O-D-rst-kept [C08]
+        frame_except1(*old(w), *final(w), target_info.path@),                                   //# O-D-rst-frame [C09]
+        final(w).execs == old(w).execs,                                                              //# O-D-rst-noexec [C02,C20]
+        res matches Ok(r) ==> !(r is Downloaded),
+        cache_keeps_except(*old(w), *final(w), cpath(old(w).cache_dir, remembered_target_content_info.ticket.bytes()), target_info.path@),   //# O-D-rst-cache-keeps [C02,C10]
+        // resolution truth (C20) and "already correct / recoverable is not rebuilt" (C02)
+        res matches Ok(FileResolution::AlreadyCorrect) ==> *final(w) == *old(w)                      //# O-D-resolution-uptodate [C02,C20]
+            && file_tk(*old(w), target_info.path@, remembered_target_content_info.ticket),
+        res matches Ok(FileResolution::Recovered) ==>                                                //# O-D-resolution-recovered [C02,C07,C10,C20]
+            file_tk(*final(w), target_info.path@, remembered_target_content_info.ticket)
+            && !file_tk(*old(w), target_info.path@, remembered_target_content_info.ticket)
+            && (!old(w).files.contains_key(target_info.path@) ==>
+                    old(w).files.contains_key(cpath(old(w).cache_dir, remembered_target_content_info.ticket.bytes()))
+                    && final(w).files[target_info.path@] == old(w).files[cpath(old(w).cache_dir, remembered_target_content_info.ticket.bytes())]),
+        res matches Ok(FileResolution::NeedsRebuild) ==> !final(w).files.contains_key(target_info.path@)   //# O-D-resolution-needs-rebuild [C02,C20]
+            && !file_tk(*old(w), target_info.path@, remembered_target_content_info.ticket)
+            && !old(w).files.contains_key(cpath(old(w).cache_dir, remembered_target_content_info.ticket.bytes())),
+//@ hint before 1/1 /match cache\.back_up_file_with_ticket/
+            proof {
+                cpath_under(w.cache_dir, current_target_ticket.bytes());
+                cpath_under(w.cache_dir, remembered_target_content_info.ticket.bytes());
+                if cpath(w.cache_dir, current_target_ticket.bytes()) == cpath(w.cache_dir, remembered_target_content_info.ticket.bytes()) {
+                    cpath_inj(w.cache_dir, current_target_ticket.bytes(), remembered_target_content_info.ticket.bytes());
+                }
+            }
+            let ghost w_start = *w;
+//@ hint before 1/2 /restore_or_download\(/
+            let ghost w_mid = *w;
+            proof { kept_trans(w_start, w_mid, w_mid); }
+//@ end
+
+impl Blob {
+
+    spec fn all_absent(&self, w: World) -> bool { forall|k: int| 0 <= k < self.file_infos@.len() ==> !w.files.contains_key(#[trigger] self.file_infos@[k].path@) }
+
+//@ extract blob.rs impl /^Blob$/ fn resolve_remembered_file_state_vec
+//@ props C02 C05 C07 C08 C09 C10 C20
+//@ ret res
+//@ param Tracked(w): Tracked<&mut World>
+//@ addarg 1 /resolve_single_target/ Tracked(w)
+//@ retype 1 /let mut resolutions = vec!\[\];/ => let mut resolutions : Vec<FileResolution> = Vec::new();
+//@ rewrite 1 /for \(i, info\) in self\.file_infos\.iter\(\)\.enumerate\(\)/ => for i in 0..self.file_infos.len()
+//@ insert after 1/1 /for \(i, info\) in self\.file_infos\.iter\(\)\.enumerate\(\)\s*\{/ => let info = &self.file_infos[i];
+//@ spec
+        requires old(cache).wf(*old(w)), inv(*old(w)), no_urls(*downloader_cache_opt), self.wf(*old(w)), self.all_rem_ok(),
+            remembered_tickets.infos@.len() == self.file_infos@.len(),                                 //# O-D-hist-wf-needed [C05]
+        ensures final(cache).wf(*final(w)), final(cache).path@ == old(cache).path@,
+            inv(*final(w)),                                                                            //# O-D-rrv-inv [C07]
+            kept(*old(w), *final(w)),                                                                  //# O-D-rrv-kept [C08]
+            frame_except(*old(w), *final(w), self.paths()),                                            //# O-D-rrv-frame [C09]
+            final(w).execs == old(w).execs,                                                            //# O-D-rrv-noexec [C02,C20]
+            res matches Ok(v) ==> v@.len() == self.file_infos@.len()                                   //# O-D-rrv-truth [C02,C10,C20]
+                && (forall|k: int| 0 <= k < self.file_infos@.len() ==>
+                        res_ok(*old(w), *final(w), self.file_infos@[k].path@, remembered_tickets.infos@[k].ticket.bytes(), #[trigger] v@[k]))
+                && (forall|k: int| 0 <= k < self.file_infos@.len() && uniq_at(remembered_tickets.tickets(), k) ==>
+                        res_unique(*old(w), *final(w), self.file_infos@[k].path@, remembered_tickets.infos@[k].ticket.bytes(), #[trigger] v@[k], self.all_absent(*old(w)))),
+//@ loop 1 invariant
+            invariant cache.wf(*w), cache.path@ == old(cache).path@, inv(*w), no_urls(*downloader_cache_opt), self.wf(*w), self.all_rem_ok(),
+                remembered_tickets.infos@.len() == self.file_infos@.len(),
+                same_consts(*old(w), *w),
+                kept(*old(w), *w), frame_except(*old(w), *w, self.paths()), w.execs == old(w).execs,
+                resolutions@.len() == i,
+                // done targets: their claim stays true
+                forall|k: int| 0 <= k < i ==> res_ok(*old(w), *w, self.file_infos@[k].path@, remembered_tickets.infos@[k].ticket.bytes(), #[trigger] resolutions@[k]),
+                forall|k: int| 0 <= k < i && uniq_at(remembered_tickets.tickets(), k) ==>
+                        res_unique(*old(w), *w, self.file_infos@[k].path@, remembered_tickets.infos@[k].ticket.bytes(), #[trigger] resolutions@[k], self.all_absent(*old(w))),
+                // pending targets: still as they were; the cache entry of a uniquely remembered hash is still there
+                forall|k: int| i <= k < self.file_infos@.len() ==> (w.files.contains_key(#[trigger] self.file_infos@[k].path@) == old(w).files.contains_key(self.file_infos@[k].path@))
+                        && (w.files.contains_key(self.file_infos@[k].path@) ==> w.files[self.file_infos@[k].path@] == old(w).files[self.file_infos@[k].path@]),
+                forall|k: int| i <= k < self.file_infos@.len() && uniq_at(remembered_tickets.tickets(), k) && old(w).files.contains_key(cpath(old(w).cache_dir, #[trigger] remembered_tickets.tickets()[k]))
+                        ==> w.files.contains_key(cpath(old(w).cache_dir, remembered_tickets.tickets()[k]))
+                            && (self.all_absent(*old(w)) ==> w.files[cpath(old(w).cache_dir, remembered_tickets.tickets()[k])] == old(w).files[cpath(old(w).cache_dir, remembered_tickets.tickets()[k])]),
+//@ hint before 1/1 /match resolve_single_target\(/
+            let ghost w_i = *w;
+            proof {
+                assert(self.paths()[i as int] == self.file_infos@[i as int].path@);
+                assert forall|k: int| 0 <= k < self.file_infos@.len() implies cpath_under_fact(w.cache_dir, #[trigger] remembered_tickets.tickets()[k]) by {
+                    cpath_under(w.cache_dir, remembered_tickets.tickets()[k]);
+                }
+                assert forall|k: int| 0 <= k < self.file_infos@.len() && k != i && uniq_at(remembered_tickets.tickets(), k)
+                    implies cpath(w.cache_dir, #[trigger] remembered_tickets.tickets()[k]) != cpath(w.cache_dir, remembered_tickets.tickets()[i as int]) by {
+                    if cpath(w.cache_dir, remembered_tickets.tickets()[k]) == cpath(w.cache_dir, remembered_tickets.tickets()[i as int]) {
+                        cpath_inj(w.cache_dir, remembered_tickets.tickets()[k], remembered_tickets.tickets()[i as int]);
+                    }
+                }
+            }
+//@ hint after 1/1 /Ok\(resolution\) => resolutions\.push\(resolution\),/
+                // (proof context only)
+//@ end
+}
+spec fn uniq_at(ts: Seq<Seq<u8>>, k: int) -> bool { forall|j: int| 0 <= j < ts.len() && j != k ==> #[trigger] ts[j] != ts[k] }
+spec fn cpath_under_fact(dir: Seq<char>, h: Seq<u8>) -> bool { under(dir, cpath(dir, h)) }
 } // verus!
 fn main() {}
